@@ -12,8 +12,10 @@ R = [Fraction(1, 2), Fraction(-1, 2), Fraction(3, 2), Fraction(-7, 3), Fraction(
 
 def lit(x):
     """scheme text that produces value x in a chosen representation"""
-    if isinstance(x, tuple):  # ('ratint', n): integer carried as a rational
+    if isinstance(x, tuple) and x[0] == 'ratint':  # integer carried as a rational
         return '(/ %d 1)' % x[1]
+    if isinstance(x, tuple) and x[0] == 'bigsmall':  # small integer carried as a bignum (results are never demoted)
+        return '(- (+ %d 100000000000000000000) 100000000000000000000)' % x[1]
     if isinstance(x, Fraction) and x.denominator != 1:
         return '%d/%d' % (x.numerator, x.denominator)
     return str(int(x))
@@ -24,7 +26,7 @@ def val(x):
 
 
 def palette():
-    vals = [Fraction(b) for b in B] + R + [('ratint', b) for b in B if -2**31 <= b < 2**31]
+    vals = [Fraction(b) for b in B] + R + [('ratint', b) for b in B if -2**31 <= b < 2**31] + [('bigsmall', b) for b in (0, 1, -1, 7, 2**31)]
     return vals
 
 
